@@ -31,7 +31,7 @@ ASSUMPTIONS = [
     "noise enters only through numpy.random.normal inside battery.py (owned seam; any other numpy.random use raises)",
 ]
 CHUNK = 24
-PILOTS = (0, 1, 6, 16, 32, 80)
+PILOTS = (0, 1e-15, 1, 6, 16, 32, 80)  # 1e-15 A: a vanishing but positive pilot (what a float remainder of a demand looks like)
 DRAWS = (0.0, 0.1, -0.1, 1.0, -1.0, 3.0, -3.0)
 RESETS = ("reset", "reset-half", "reset-over")
 
